@@ -16,3 +16,301 @@ def run(ctx):
     sig.s15_5_version_alignment_sign(ctx, P)
     sig.s02_6_backsig(ctx, P)
     sig.s02_5_onepass(ctx, P)
+
+
+# ---------------------------------------------------------------------------------------------------
+import re
+from rules.common import (rdom, call_blocks, ok_exit_blocks, site, arm_context, enum_switch_info, edge_variants,
+                          single_defs, resolve_value)
+from rules.sig import conditional_guard
+from core import guard_switches, must_pass, fmt_path, has_origin
+
+RFC_ESK_TABLE = {  # container -> (PKESK version, SKESK versions)   RFC 9580 §10.3.2.1 + documented GnuPG container
+    'SED': ('V3', ('V4',)),
+    'SEIPDv1': ('V3', ('V4',)),
+    'SEIPDv2': ('V6', ('V6',)),
+    'GnuPG-AEAD': ('V3', ('V4', 'V5')),
+}
+RFC_SK_TABLE = {('SEIPDv1', 'V3_4'), ('GnuPG-AEAD', 'V3_4'), ('GnuPG-AEAD', 'V5'), ('SEIPDv2', 'V6')}
+
+
+def container_of(ctx_list):
+    d = {}
+    for adt, vs in ctx_list:
+        d.setdefault(adt, []).extend(vs or [])
+    if 'SymEncryptedData' in d.get('Edata', []):
+        return 'SED'
+    if 'GnupgAead' in d.get('ProtectedDataConfig', []):
+        return 'GnuPG-AEAD'
+    if 'Seipd' in d.get('ProtectedDataConfig', []):
+        if d.get('Config') == ['V1']:
+            return 'SEIPDv1'
+        if d.get('Config') == ['V2']:
+            return 'SEIPDv2'
+    return None
+
+
+def s15_1(ctx, P):
+    b = ctx.body("composed::message::parser::MessageParser::<'a>::visit_esk")
+    if b is None:
+        return
+    dom = b.dominators()
+    table = {}
+    cs = b.calls(r'parser::esk_filter$')
+    ctx.floor(P + ':S15-1:floor', 'esk_filter call sites in visit_esk', len(cs), 4)
+    for i, t in cs:
+        cont = container_of(arm_context(b, i, dom))
+        pk = sorted(m.group(1) for tok in b.operand_origins(t['args'][1]) for m in [re.match(r'agg:.*PkeskVersion::(\w+)$', tok)] if m)
+        sk = sorted(m.group(1) for tok in b.operand_origins(t['args'][2]) for m in [re.match(r'agg:.*SkeskVersion::(\w+)$', tok)] if m)
+        table[cont] = (pk[0] if len(pk) == 1 else tuple(pk), tuple(sk))
+    ctx.check(P + ':S15-1:esk-table', 'R-table', 'ESK versions kept per container equal the RFC 9580 alignment table', table == RFC_ESK_TABLE,
+              function=b.path, table={str(k): v for k, v in table.items()})
+    # Message::Encrypted is built from the filtered list only
+    enc = b.constructs(r'composed::message::types::Message$', 'Encrypted')
+    good = bool(enc)
+    pushes = call_blocks(b, r'Vec::<.*>::push$|Vec::<T, A>::push$')
+    after_push = b.reach_from([b.blocks[p]['t']['t'] for p in pushes if b.blocks[p]['t']['t'] is not None])
+    for i, k, s in enc:
+        idx = s['r']['fields'].index('esk')
+        # either the list comes out of esk_filter, or no ESK can have been pushed on any path to this literal (bare container)
+        good &= has_origin(b.operand_origins(s['r']['o'][idx]), r'call:.*parser::esk_filter$') or (i not in after_push and bool(pushes))
+    ctx.check(P + ':S15-1:encrypted-from-filter', 'origin', 'Message::Encrypted.esk derives from esk_filter output', good, function=b.path)
+    # esk_filter closure compares versions of both kinds
+    clos = [ctx.wrap(r) for r in ctx.f.bodies.values() if r.get('parent') == 'composed::message::parser::esk_filter']
+    names = set()
+    for c in clos:
+        for i, t in c.calls():
+            names.add(t['f'].get('fn', ''))
+    need = ['PublicKeyEncryptedSessionKey::version', 'SymKeyEncryptedSessionKey::version']
+    ctx.check(P + ':S15-1:filter-compares-both', 'R-who', 'esk_filter inspects version() of both PKESK and SKESK',
+              all(any(n.endswith(x) for n in names) for x in need) and bool(clos), missing=[x for x in need if not any(n.endswith(x) for n in names)])
+    b2 = ctx.body('composed::message::parser::esk_filter')
+    if b2 is not None:
+        ctx.check(P + ':S15-1:filter-uses-filter', 'R-who', 'esk_filter returns the filtered iterator', bool(b2.calls(r'Iterator::filter$')) and bool(b2.calls(r'Iterator::collect$')), function=b2.path)
+
+
+def s15_2(ctx, P):
+    b = ctx.body('composed::message::reader::sym_encrypted_protected::SymEncryptedProtectedDataReader::<R>::decrypt')
+    if b is not None:
+        dom = b.dominators()
+        sinks = call_blocks(b, r'replace_with_and_return')
+        ctx.floor(P + ':S15-2:floor', 'decryptor construction sites in SymEncryptedProtectedDataReader::decrypt', len(sinks), 3)
+        can = b.can_reach(set(sinks))
+        table = set()
+        nsw = 0
+        for i, t in b.switches():
+            info = enum_switch_info(b, i)
+            if not info or not info[0].endswith('PlainSessionKey'):
+                continue
+            nsw += 1
+            cont = container_of(arm_context(b, i, dom))
+            for j, _ in b.succ(i):
+                if j in can:
+                    for v in edge_variants(b, i, j) or []:
+                        table.add((cont, v))
+        ctx.check(P + ':S15-2:sk-container-table', 'R-table', 'accepted (container, session-key kind) cells equal {V1xV3_4, GnuPGx{V3_4,V5}, V2xV6}',
+                  table == RFC_SK_TABLE and nsw >= 3, function=b.path, table=sorted(map(list, table)))
+        # key length guard precedes the AEAD decryptors
+        for cont in ('GnuPG-AEAD', 'SEIPDv2'):
+            ss = [s for s in sinks if container_of(arm_context(b, s, dom)) == cont]
+            rdom(ctx, P + ':S15-2:keylen:%s' % cont, b, ss, [r'call:.*SymmetricKeyAlgorithm::key_size$', r'call:.*len$'],
+                 'session key length == cipher key size is checked before the %s decryptor is built' % cont)
+    b = ctx.body('composed::message::reader::sym_encrypted::SymEncryptedDataReader::<R>::decrypt')
+    if b is not None:
+        sinks = call_blocks(b, r'replace_with_and_return|StreamDecryptor')
+        can = b.can_reach(set(sinks))
+        acc = set()
+        for i, t in b.switches():
+            info = enum_switch_info(b, i)
+            if info and info[0].endswith('PlainSessionKey'):
+                for j, _ in b.succ(i):
+                    if j in can:
+                        acc.update(edge_variants(b, i, j) or [])
+        ctx.check(P + ':S15-2:sed-table', 'R-table', 'SED container accepts only V3_4 session keys', acc == {'V3_4'} and bool(sinks), function=b.path, table=sorted(acc))
+
+
+def s15_3(ctx, P):
+    b = ctx.body("composed::message::types::Edata::<'a>::decrypt_with_options")
+    if b is not None:
+        dom = b.dominators()
+        defs = single_defs(b)
+        def field_switches(fld):
+            out = []
+            for i, t in b.switches():
+                k, v = resolve_value(b, t['o'], defs)
+                if k == 'place' and v['pr'] and v['pr'][-1].endswith('DecryptionOptions.' + fld):
+                    out.append(i)
+            return out
+        sed = call_blocks(b, r'SymEncryptedDataReader.*::decrypt$')
+        g = field_switches('legacy')
+        ok, wit = must_pass(b, sed, g)
+        ctx.check(P + ':S15-3:sed-needs-legacy', 'R-dom', 'SED decryption is reached only through the DecryptionOptions.legacy branch', ok and bool(g) and bool(sed),
+                  function=b.path, guards=[site(b, x) for x in g], sinks=[site(b, x) for x in sed], witness=fmt_path(b, wit) if wit else None)
+        gn = [i for i in call_blocks(b, r'SymEncryptedProtectedDataReader.*::decrypt$') if ('Edata', ['GnupgAeadData']) in arm_context(b, i, dom)]
+        g = field_switches('gnupg_aead')
+        ok, wit = must_pass(b, gn, g)
+        ctx.check(P + ':S15-3:gnupg-needs-optin', 'R-dom', 'GnuPG AEAD decryption is reached only through the DecryptionOptions.gnupg_aead branch', ok and bool(g) and bool(gn),
+                  function=b.path, guards=[site(b, x) for x in g], sinks=[site(b, x) for x in gn], witness=fmt_path(b, wit) if wit else None)
+    b = ctx.body("composed::message::types::TheRing::<'_>::find_session_key")
+    if b is None:
+        cands = [p for p in ctx.f.bodies if p.endswith('::find_session_key') and 'TheRing' in p]
+        b = ctx.body(cands[0]) if cands else None
+    if b is not None:
+        sinks = call_blocks(b, r'decrypt_session_key_with_password$')
+        conditional_guard(ctx, P + ':S15-3:skesk-v5-needs-optin', b, sinks, r'field:DecryptionOptions\.gnupg_aead$',
+                          [r'call:.*SymKeyEncryptedSessionKey::version$'],
+                          'a v5 SKESK is tried only when gnupg_aead is enabled (skip branch on !gnupg_aead && version == V5)')
+    # writers of the opt-in flags
+    writers = {'legacy': set(), 'gnupg_aead': set()}
+    nonconst = []
+    for p, r in ctx.f.bodies.items():
+        if not p.startswith('composed::message::'):
+            continue
+        bb = ctx.wrap(r)
+        used = False
+        for i, blk in enumerate(bb.blocks):
+            for s in blk['s']:
+                for fld in writers:
+                    if s['d']['pr'] and s['d']['pr'][-1].endswith('DecryptionOptions.' + fld):
+                        writers[fld].add(p); used = True
+                rr = s['r']
+                if rr['k'] == 'agg' and rr.get('adt', '').endswith('types::DecryptionOptions'):
+                    used = True
+                    for fld in writers:
+                        o = rr['o'][rr['fields'].index(fld)]
+                        if not ('k' in o and o['k'].get('v') == 0):
+                            nonconst.append((p, fld))
+        if not used:
+            ctx.functions.discard(p)
+    ctx.check(P + ':S15-3:who-sets-legacy', 'R-who', 'DecryptionOptions.legacy is set only by enable_legacy; literals initialise it to false',
+              writers['legacy'] == {'composed::message::types::DecryptionOptions::enable_legacy'} and not [x for x in nonconst if x[1] == 'legacy'],
+              table=sorted(writers['legacy']), missing=nonconst)
+    ctx.check(P + ':S15-3:who-sets-gnupg', 'R-who', 'DecryptionOptions.gnupg_aead is set only by enable_gnupg_aead; literals initialise it to false',
+              writers['gnupg_aead'] == {'composed::message::types::DecryptionOptions::enable_gnupg_aead'} and not [x for x in nonconst if x[1] == 'gnupg_aead'],
+              table=sorted(writers['gnupg_aead']), missing=nonconst)
+    callers = sorted(p for p, r in ctx.f.bodies.items() if ctx.wrap(r).calls(r'DecryptionOptions::enable_legacy$'))
+    ctx.check(P + ':S15-3:callers-of-enable_legacy', 'R-who', 'the only crate-internal caller of enable_legacy is decrypt_legacy',
+              callers == ["composed::message::types::Message::<'a>::decrypt_legacy"], table=callers)
+    callers = sorted(p for p, r in ctx.f.bodies.items() if ctx.wrap(r).calls(r'DecryptionOptions::enable_gnupg_aead$'))
+    ctx.check(P + ':S15-3:callers-of-enable_gnupg', 'R-who', 'no crate-internal code enables GnuPG AEAD on the caller\'s behalf', callers == [], table=callers)
+
+
+def s15_6(ctx, P):
+    b = ctx.body('packet::signature::config::SignatureConfig::hash_signature_data')
+    if b is None:
+        return
+    sinks = [i for i, t in b.calls(r'Serialize::to_writer$') if 'Subpacket' in t['f'].get('selfty', '') or 'Subpacket' in (t['f'].get('res') or '')]
+    ctx.floor(P + ':S15-6:floor', 'hashed subpacket serialisation site in hash_signature_data', len(sinks), 1)
+    conditional_guard(ctx, P + ':S15-6:critical-unknown', b, sinks, r'field:Subpacket\.is_critical$', [r'call:.*Subpacket::typ$'],
+                      'a critical subpacket of unknown type is rejected before it is hashed')
+    # issuer fingerprint version
+    dom = b.dominators()
+    bad = None
+    n = 0
+    for i, t in b.switches():
+        info = enum_switch_info(b, i)
+        if not info or not info[0].endswith('SubpacketData'):
+            continue
+        for j, _ in b.succ(i):
+            vs = edge_variants(b, i, j) or []
+            if 'IssuerFingerprint' in vs:
+                n += 1
+                gs = [g for g, _ in guard_switches(b, sinks, [r'call:.*Fingerprint::version$'])]
+                gs2 = [g for g, _ in guard_switches(b, sinks, [r'call:.*SignatureConfig::version$'])]
+                p_ = b.find_path(j, set(sinks), removed=frozenset(gs))
+                if p_ is not None:
+                    bad = p_
+                p_ = b.find_path(j, set(sinks), removed=frozenset(gs2))
+                if p_ is not None:
+                    bad = p_
+    ctx.check(P + ':S15-6:issuer-fp-version', 'R-dom', 'an IssuerFingerprint subpacket is hashed only after its version was matched against the signature version',
+              n >= 1 and bad is None, function=b.path, witness=fmt_path(b, bad) if bad else None)
+    # accepted (sig version, fp version) cells
+    cells = set()
+    can = b.can_reach(set(sinks))
+    for i, t in b.switches():
+        info = enum_switch_info(b, i)
+        if info and info[0].endswith('KeyVersion'):
+            ac = arm_context(b, i, dom)
+            svs = [vs for adt, vs in ac if adt == 'SignatureVersion']
+            sv = list(min(svs, key=len)) if svs else []   # the innermost (most specific) signature-version arm
+            if not any(adt == 'SubpacketData' and 'IssuerFingerprint' in (vs or []) for adt, vs in ac):
+                continue
+            for j, _ in b.succ(i):
+                if j in can and j != i:
+                    # is the sink reachable without coming back through the loop head?  (rejecting arms bail out)
+                    rej = b.can_reach(set(sinks), removed=frozenset([i]))
+                    if j in rej:
+                        for kv in edge_variants(b, i, j) or []:
+                            cells.add((tuple(sv), kv))
+    ctx.check(P + ':S15-6:issuer-fp-cells', 'R-table', 'accepted (signature version, fingerprint version) cells are exactly (V4,V4) and (V6,V6)',
+              cells == {(('V4',), 'V4'), (('V6',), 'V6')}, function=b.path, table=sorted([list(c[0]), c[1]] for c in cells))
+
+
+def s15_7(ctx, P):
+    b = ctx.body('composed::signed_key::key_parser::next')
+    if b is None:
+        return
+    sinks = [i for i, k, s in b.stmts(lambda s: s['d']['l'] == 0 and s['r']['k'] == 'agg' and s['r'].get('v') == 'Some')
+             if has_origin(b.operand_origins(b.blocks[i]['s'][k]['r']['o'][0]), r'agg:.*Result::Ok$')]
+    if not sinks:
+        oks = [i for i, k, s in b.stmts(lambda s: s['r']['k'] == 'agg' and s['r'].get('v') == 'Ok' and s['r'].get('adt', '').endswith('Result'))]
+        sinks = oks
+    ctx.floor(P + ':S15-7:floor', 'accepting return of key_parser::next', len(sinks), 1)
+    # primary-version == V6 switches and their non-v6 edges
+    p6 = [i for i, t in b.switches() if has_origin(b.switch_origins(i), r'callty:.*KeyDetails::version@IKT$') and has_origin(b.switch_origins(i), r'agg:.*KeyVersion::V6$')
+          and has_origin(b.switch_origins(i), r'callty:.*PartialEq::eq@')]
+    nonv6_edges = set()
+    for i in p6:
+        t = b.blocks[i]['t']
+        for v, bb in t['targets']:
+            if v == 0:
+                nonv6_edges.add((i, bb))
+    for fam, rx, pushrx in (('public', r'(callres|callty):.*KeyDetails.*::version.*Public[Ss]ub[Kk]ey', r'Vec::<.*SignedPublicSubKey>::push$'),
+                            ('secret', r'(callres|callty):.*KeyDetails.*::version.*Secret[Ss]ub[Kk]ey', r'Vec::<.*SignedSecretSubKey>::push$')):
+        pushes = call_blocks(b, pushrx)
+        gs = [g for g, _ in guard_switches(b, sinks, [rx, r'agg:.*KeyVersion::V6$'])]
+        # a check performed in a `for sub in &container` loop: the loop entry is the check point (a loop body can be
+        # skipped on the CFG only because the container may be empty), provided a rejecting guard sits inside the loop
+        famty = 'Signed%sSubKey' % fam.capitalize()
+        dom = b.dominators()
+        heads = [i for i, t in b.calls(r'IntoIterator::into_iter$') if famty in t['f'].get('selfty', '')]
+        heads = [h for h in heads if any(h in dom.get(g, ()) for g in gs)]
+        gs = gs + heads
+        bad = None
+        for p in pushes:
+            before = b.find_path(0, {p}, removed=frozenset(gs), removed_edges=frozenset(nonv6_edges))
+            after = b.find_path(b.blocks[p]['t']['t'], set(sinks), removed=frozenset(gs), removed_edges=frozenset(nonv6_edges))
+            if before is not None and after is not None:
+                bad = after
+        ctx.check(P + ':S15-7:v6-primary-v6-%s-subkeys' % fam, 'R-sib',
+                  'every %s subkey collected under a v6 primary had its version compared with V6 (rejecting) before the certificate is returned' % fam,
+                  bool(pushes) and bool(p6) and bad is None, function=b.path, guards=[site(b, g) for g in gs], sinks=[site(b, s) for s in sinks],
+                  witness=fmt_path(b, bad) if bad else None)
+    # no subkeys on v2/v3 primaries
+    pushes = call_blocks(b, r'Vec::<.*Signed(Public|Secret)SubKey>::push$')
+    rdom(ctx, P + ':S15-7:no-subkeys-below-v4', b, pushes, [r'callty:.*KeyDetails::version@IKT$', r'callty:.*PartialOrd::lt@', r'agg:.*KeyVersion::V4$'],
+         'subkeys are collected only after rejecting primaries older than v4')
+    # PubKeyInner::new: legacy 25519 algorithms only in v4
+    b2 = ctx.body('packet::key::public::PubKeyInner::new')
+    if b2 is not None:
+        oks = ok_exit_blocks(b2)
+        vs = [i for i, t in b2.switches() if has_origin(b2.switch_origins(i), r'param:1$')]
+        ok, wit = must_pass(b2, oks, vs)
+        gs = guard_switches(b2, oks, [r'param:2$|param:5$'])
+        ctx.check(P + ':S15-7:pubkeyinner-new-guards', 'R-dom',
+                  'PubKeyInner::new: every Ok path branches on the key version, and rejecting branches on algorithm / public params exist (legacy algorithms outside v4)',
+                  ok and len(gs) >= 2, function=b2.path, guards=[site(b2, g) for g, _ in gs], count=len(gs))
+
+
+_old_run = run
+
+
+def run(ctx):
+    _old_run(ctx)
+    P = 'C15'
+    s15_1(ctx, P)
+    s15_2(ctx, P)
+    s15_3(ctx, P)
+    s15_6(ctx, P)
+    s15_7(ctx, P)
